@@ -6,6 +6,9 @@ f0_0:
   call f11_0
   call f0_0
   lea d_f0_0(%rip),%rax
+  mov wvsv0@GOTPCREL(%rip),%rax
+  mov wvsv1@GOTPCREL(%rip),%rax
+  mov wvsv1(%rip),%rax
   ret
 .section .data.d_f0_0,"aw",@progbits
 .globl d_f0_0
